@@ -329,7 +329,7 @@ SPECS["C02"] = dict(
     functions=["ProbMinHash3::hash_item", "ProbMinHash2::hash_item", "MaxValueTracker::{update,get_value,get_max_value}", "FYshuffle::{reset,next}", "ExpRestricted01::sample (fast path)", "rand Uniform<usize>/<f64>::sample"],
     bounds={"quick": "ProbMinHash3 m=2 (3 points per item), ProbMinHash2 m=2; weight 1.0; registers, signature, item and all generator outputs symbolic",
             "thorough": "ProbMinHash3: m=2 with every weight 2^e, |e| <= 40 (symbolic), and m=3 (4 points) with weight 1; ProbMinHash2: m=2 with every weight 2^e (m=3 and non-power-of-two weights did not finish within 40 min and are not registered)"},
-    outside="ProbMinHash3a / 3aSha (their two-pass buffer is not encoded: IndexMap/HashMap + SHA-512 under CBMC are out of reach within the caps; 3 == 3a is therefore NOT decided), hash_wset / map entry points (plain loops over hash_item: read, not encoded), m > 4, weights that are not powers of two except the listed ones, items whose race lasts longer than N points (ProbMinHash3: states with max register > N/w), 'every position of a non-empty set is filled' (needs the race of the first item to reach all positions: unbounded under an arbitrary oracle), exact float ties between different items",
+    outside="ProbMinHash3a / 3aSha (their two-pass buffer is not encoded: IndexMap/HashMap + SHA-512 under CBMC are out of reach within the caps; 3 == 3a is therefore NOT decided), hash_wset / map entry points (plain loops over hash_item: read, not encoded), m > 3 for ProbMinHash3 and m > 2 for ProbMinHash2 (larger instances did not finish within 40-90 min), weights that are not powers of two, items whose race lasts longer than N points (ProbMinHash3: states with max register > N/w), 'every position of a non-empty set is filled' (needs the race of the first item to reach all positions: unbounded under an arbitrary oracle), exact float ties between different items",
     assumptions=["tracker invariant (C15)", "per-item generator = memoised oracle keyed by the item hash; Exp1 = arbitrary finite f64 >= 0 per draw",
                  "ProbMinHash3 harnesses use the real ExpRestricted01 code with c1 = 1 (the lambda -> 0 limit: one draw per sample, value in [0,1)); its rejection loop is checked under C16",
                  "ProbMinHash2: permutation generator in an arbitrary (dirty) reachable state before the call"],
